@@ -21,6 +21,11 @@ func ResetWatchCache() {
 '''},
         'trimpath': False,
     },
+    'lsp': {
+        'pkg': 'zzverif/worlds/lsp',
+        'rewrite': [('lsp/jsonrpc2', 'sync'), ('cmd/templ/lspcmd/proxy', 'sync'), ('lsp/protocol', 'sync')],
+        'extra_dirs': ['simnet'],
+    },
     'rpc': {
         'pkg': 'zzverif/worlds/rpc',
         'rewrite': [('lsp/jsonrpc2', 'sync')],
@@ -136,6 +141,24 @@ PROPS = {
         'assumptions': ['tasks interleave only at seams (writer, flush, expression, start of render); code between two seams of one task is atomic in stage main',
                         'race detection inside a burst is by happens-before; a replay of a race report is same seed and burst structure, not a byte-identical trace',
                         'dev-mode TTL uses the real clock in this world; the text files are not edited here, so it cannot change bytes (C16 owns the TTL logic)'],
+    },
+    'C17': {
+        'world': 'lsp',
+        'level': 'exploration',
+        'builds': {'default': {}},
+        'tiers': {
+            'quick': {'runs': 3000, 'params': {'max_actions': 120, 'max_edits': 40, 'max_steps': 6000}, 'per_run_timeout': 10.0},
+            'thorough': {'runs': 100000, 'params': {'max_actions': 400, 'max_edits': 150, 'max_steps': 20000}, 'per_run_timeout': 30.0, 'shrink_budget_s': 300},
+        },
+        'rule': 'one run = an editor history (didOpen of a small random or real templ document, then up to N didChange notifications with 1-4 changes each: full replace, '
+                'insert, delete, replace, single- and multi-line, at 0:0, at the very end, positions beyond line/document end, plus occasional didClose/reopen) encoded by the '
+                'simulator\'s own codec and delivered in tape-chosen chunks while the handler goroutines of the production chain CancelHandler(AsyncHandler(ReplyHandler(ServerHandler))) '
+                'and the stub gopls are scheduled by the tape; at every point where the server has processed everything sent, its copy is compared with a byte-splice reference and the '
+                'text last forwarded to gopls with the generation of the latest parseable reference. distinct = event-log hash; non-trivial = at least one change applied',
+        'real': ['lsp/jsonrpc2 stream + conn', 'lsp/protocol.NewServer with the production handler chain and server dispatch', 'cmd/templ/lspcmd/proxy.Server DidOpen/DidChange/DidClose, DocumentContents/Document.Apply', 'parser, generator'],
+        'stubbed': ['byte transport (parks, chunking)', 'the editor (reference model)', 'gopls (lsp.Server stub that records forwarded text and parks)', 'sync.Mutex (channel mutex)'],
+        'assumptions': ['ASCII documents only: LSP columns are UTF-16 units, the server uses byte columns; whether that is a defect is outside this statement',
+                        'the editor never sends a range whose start lies after its end', 'only notifications are sent (no requests reach the unimplemented stub methods)'],
     },
     'C18': {
         'world': 'rpc',
